@@ -241,7 +241,7 @@ def least_squares(x, y, func, priors=None, silent=False, **kwargs):
         funcd = {"": func}
         output.fit_function = func
 
-    if kwargs.get('num_grad') is True:
+    if kwargs.get('num_grad'):
         jacobian = num_jacobian
         hessian = num_hessian
     else:
@@ -355,7 +355,7 @@ def least_squares(x, y, func, priors=None, silent=False, **kwargs):
     def chisqfunc_uncorr(p):
         return anp.sum(general_chisqfunc_uncorr(p, y_f, p_f) ** 2)
 
-    if kwargs.get('correlated_fit') is True:
+    if kwargs.get('correlated_fit'):
         if 'inv_chol_cov_matrix' in kwargs:
             chol_inv = kwargs.get('inv_chol_cov_matrix')
             if (chol_inv[0].shape[0] != len(dy_f)):
@@ -392,7 +392,7 @@ def least_squares(x, y, func, priors=None, silent=False, **kwargs):
             if 'tol' in kwargs:
                 tolerance = kwargs.get('tol')
             fit_result = iminuit.minimize(chisqfunc_uncorr, x0, tol=tolerance)  # Stopping criterion 0.002 * tol * errordef
-            if kwargs.get('correlated_fit') is True:
+            if kwargs.get('correlated_fit'):
                 fit_result = iminuit.minimize(chisqfunc, fit_result.x, tol=tolerance)
             output.iterations = fit_result.nfev
         else:
@@ -400,7 +400,7 @@ def least_squares(x, y, func, priors=None, silent=False, **kwargs):
             if 'tol' in kwargs:
                 tolerance = kwargs.get('tol')
             fit_result = scipy.optimize.minimize(chisqfunc_uncorr, x0, method=kwargs.get('method'), tol=tolerance)
-            if kwargs.get('correlated_fit') is True:
+            if kwargs.get('correlated_fit'):
                 fit_result = scipy.optimize.minimize(chisqfunc, fit_result.x, method=kwargs.get('method'), tol=tolerance)
             output.iterations = fit_result.nit
 
@@ -414,7 +414,7 @@ def least_squares(x, y, func, priors=None, silent=False, **kwargs):
             return general_chisqfunc_uncorr(p, y_f, p_f)
 
         fit_result = scipy.optimize.least_squares(chisqfunc_residuals_uncorr, x0, method='lm', ftol=1e-15, gtol=1e-15, xtol=1e-15)
-        if kwargs.get('correlated_fit') is True:
+        if kwargs.get('correlated_fit'):
             def chisqfunc_residuals(p):
                 return general_chisqfunc(p, y_f, p_f)
 
@@ -450,8 +450,8 @@ def least_squares(x, y, func, priors=None, silent=False, **kwargs):
         hat_vector = [item for sublist in hat_vector for item in sublist]
         return hat_vector
 
-    if kwargs.get('expected_chisquare') is True:
-        if kwargs.get('correlated_fit') is not True:
+    if kwargs.get('expected_chisquare'):
+        if not kwargs.get('correlated_fit'):
             W = np.diag(1 / np.asarray(dy_f))
             cov = covariance(y_all)
             hat_vector = prepare_hat_matrix()
@@ -489,16 +489,16 @@ def least_squares(x, y, func, priors=None, silent=False, **kwargs):
     output.fit_parameters = result
 
     # Hotelling t-squared p-value for correlated fits.
-    if kwargs.get('correlated_fit') is True:
+    if kwargs.get('correlated_fit'):
         n_cov = np.min(np.vectorize(lambda x_all: x_all.N)(y_all))
         output.t2_p_value = 1 - scipy.stats.f.cdf((n_cov - output.dof) / (output.dof * (n_cov - 1)) * output.chisquare,
                                                   output.dof, n_cov - output.dof)
 
-    if kwargs.get('resplot') is True:
+    if kwargs.get('resplot'):
         for key in key_ls:
             residual_plot(xd[key], yd[key], funcd[key], result, title=key)
 
-    if kwargs.get('qqplot') is True:
+    if kwargs.get('qqplot'):
         for key in key_ls:
             qqplot(xd[key], yd[key], funcd[key], result, title=key)
 
@@ -565,7 +565,7 @@ def total_least_squares(x, y, func, silent=False, **kwargs):
 
     x_shape = x.shape
 
-    if kwargs.get('num_grad') is True:
+    if kwargs.get('num_grad'):
         jacobian = num_jacobian
         hessian = num_hessian
     else:
@@ -638,7 +638,7 @@ def total_least_squares(x, y, func, silent=False, **kwargs):
         chisq = anp.sum(((y_f - model) / dy_f) ** 2) + anp.sum(((x_f - p[n_parms:].reshape(x_shape)) / dx_f) ** 2)
         return chisq
 
-    if kwargs.get('expected_chisquare') is True:
+    if kwargs.get('expected_chisquare'):
         W = np.diag(1 / np.asarray(np.concatenate((dy_f.ravel(), dx_f.ravel()))))
 
         if kwargs.get('covariance') is not None:
